@@ -21,7 +21,7 @@ const int NT = 5, NCL = 6, NLI = 2, NES = 2;
 
 struct H;
 struct Obj { virtual ~Obj() {} };   // common base so that the graveyard can release the callback objects
-struct TimerCb : public Server::Timer::ICallback, public Obj { H* h; int slot; bool alive; long long start, interval, nextDue; long k; Server::Timer* handle; void onActivated() override; };
+struct TimerCb : public Server::Timer::ICallback, public Obj { H* h; int slot; bool alive; long long start, interval, nextDue; long k; long long slowMs = 0; Server::Timer* handle; void onActivated() override; };
 struct ClientCb : public Server::Client::ICallback, public Obj {
   H* h; int slot; bool alive; bool maybeFailed = false; Server::Client* cl; int peerFd; Socket* peerSock; bool suspended; bool tcp; bool peerClosed; bool closedSeen; bool failedIo;
   long long toServer, serverGot; long long backlogHint;
@@ -38,14 +38,20 @@ struct H {
   std::vector<int> looseFds;      // harness side descriptors of incoming connections not yet matched to an accepted client
   bool interruptRequested = false; long long lastDue = -1; bool inRun = false; long callbacks = 0; int depth = 0;
   long epollAtInterrupt = -1;
+  bool clockMovedInCallback = false;   // a slow callback moved the clock since the loop last asked epoll
+  long callbacksAtInterrupt = -1;
 
   [[noreturn]] void fail(const char* kind, const std::string& d) { srv::st().active = false; ctx->fail(kind, d); }
   long long now() { return srv::st().nowMs; }
 
   // ---------------------------------------------------------------- actions (usable between runs and inside callbacks)
-  void newTimer(int slot, long interval) {
+  void newTimer(int slot, long interval, long slowSel = 0) {
     if (timer[slot]) return;
     TimerCb* t = new TimerCb; t->h = this; t->slot = slot; t->alive = true; t->start = now(); t->interval = interval; t->nextDue = t->start + interval; t->k = 0;
+    // a slow handler: every activation takes exactly as long as the interval (the critical load; anything slower is an overload
+    // under which the fixed-rate catching up of the library legitimately grows without bound). At most one such timer at a time.
+    bool haveSlow = false; for (int i = 0; i < NT; ++i) if (timer[i] && timer[i]->slowMs) haveSlow = true;
+    if (slowSel % 8 == 1 && !haveSlow) { t->slowMs = interval; ctx->label("timer_with_slow_handler"); }
     t->handle = srvp->time(interval, *t); timer[slot] = t;
     int same = 0; for (int i = 0; i < NT; ++i) if (timer[i] && timer[i]->nextDue == t->nextDue) ++same;
     if (same >= 2) ctx->label("coinciding_due_times"); if (same >= 3) ctx->label("three_equal_due_times");
@@ -124,7 +130,7 @@ struct H {
     if (ctx->verbose) fprintf(stderr, "[%lld] action %s %ld %ld (selfTimer %d selfClient %d)\n", now(), op.name.c_str(), op.a[0], op.a[1], selfTimer, selfClient);
     const std::string& nm = op.name; long a = op.a[0] < 0 ? -op.a[0] : op.a[0], b = op.a[1] < 0 ? -op.a[1] : op.a[1];
     static const long IV[] = {1, 2, 3, 5, 10, 20, 50};
-    if (nm == "timer" || nm == "r_timer") newTimer((int)(a % NT), IV[b % 7]);
+    if (nm == "timer" || nm == "r_timer") newTimer((int)(a % NT), IV[b % 7], nm == "timer" ? (op.a[2] < 0 ? -op.a[2] : op.a[2]) : 0);
     else if (nm == "rmtimer" || nm == "r_rmtimer") { int s = (int)(a % NT); if ((b & 1) && selfTimer >= 0) s = selfTimer; removeTimer(s, s == selfTimer); }
     else if (nm == "client" || nm == "r_client") newPairClient((int)(a % 4));
     else if (nm == "rmclient" || nm == "r_rmclient") { int s = (int)(a % NCL); if ((b & 1) && selfClient >= 0) s = selfClient; removeClient(s, s == selfClient); }
@@ -153,8 +159,12 @@ struct H {
   }
   // called by the epoll wrapper when nothing is ready and the loop is about to sleep for 'timeout' virtual ms
   void onIdle(int timeout) {
-    for (int i = 0; i < NT; ++i) if (timer[i] && timer[i]->nextDue <= now()) { char d[160]; snprintf(d, sizeof d, "the loop goes idle at %lld although timer %d was due at %lld", now(), i, timer[i]->nextDue); fail("timer:not-activated", d); }
-    for (int i = 0; i < NT; ++i) if (timer[i] && timeout > 0 && now() + timeout > timer[i]->nextDue) { char d[200]; snprintf(d, sizeof d, "the loop sleeps %d ms from %lld, beyond the due time %lld of timer %d", timeout, now(), timer[i]->nextDue, i); fail("timer:sleeps-past-due", d); }
+    // After a slow callback a timer may have become due behind the time stamp the loop took at the start of its pass; the loop
+    // then sleeps as if that time had not passed and the timer is late by at most the handler's duration. The statement bounds
+    // activations from below only ("never before it is due"), so the two promptness checks apply to passes without slow handlers.
+    bool lenient = clockMovedInCallback; clockMovedInCallback = false;
+    for (int i = 0; i < NT; ++i) if (!lenient && timer[i] && timer[i]->nextDue <= now()) { char d[160]; snprintf(d, sizeof d, "the loop goes idle at %lld although timer %d was due at %lld", now(), i, timer[i]->nextDue); fail("timer:not-activated", d); }
+    for (int i = 0; i < NT; ++i) if (!lenient && timer[i] && timeout > 0 && now() + timeout > timer[i]->nextDue) { char d[200]; snprintf(d, sizeof d, "the loop sleeps %d ms from %lld, beyond the due time %lld of timer %d", timeout, now(), timer[i]->nextDue, i); fail("timer:sleeps-past-due", d); }
     if (timeout <= 0) return;
     for (int i = 0; i < NCL; ++i) if (client[i] && !client[i]->tcp) {
       ClientCb* c = client[i];
@@ -175,6 +185,11 @@ void TimerCb::onActivated() {
   if (nextDue < h->lastDue) { char d[200]; snprintf(d, sizeof d, "timer %d with due time %lld activated after a timer with due time %lld", slot, nextDue, h->lastDue); h->fail("timer:order", d); }
   h->lastDue = nextDue; ++k; nextDue += interval;
   if (k >= 2) h->ctx->label("timer_repeated");
+  if (slowMs) { srv::st().nowMs += slowMs; h->clockMovedInCallback = true; if (k >= 3) h->ctx->label("slow_handler_sustained"); }
+  if (h->interruptRequested) {
+    if (h->callbacksAtInterrupt < 0) h->callbacksAtInterrupt = h->callbacks;
+    if (h->callbacks - h->callbacksAtInterrupt > 100000) h->fail("run:interrupt-ignored", "more than 100000 callbacks were delivered after interrupt() without run() returning (timer catch-up never ends)");
+  }
   h->react(slot, -1);
 }
 void ClientCb::onRead() {
@@ -272,7 +287,7 @@ void pbt_run(const Case& cs, Ctx& ctx) {
     h.inRun = false;
     if (!h.interruptRequested) h.fail("run:returned-without-interrupt", "run() returned although interrupt() was not called since its last return");
     if (srv::st().epollCalls - h.epollAtInterrupt > 300) h.fail("run:interrupt-ignored", "run() kept going for more than 300 poll rounds after interrupt()");
-    (void)e0; h.interruptRequested = false; h.epollAtInterrupt = -1;
+    (void)e0; h.interruptRequested = false; h.epollAtInterrupt = -1; h.callbacksAtInterrupt = -1;
     server->remove(*dt);
   };
 
